@@ -348,7 +348,12 @@ def step : Step Pool := fun pool fs impl =>
   | ["rpcm", path, hc, tc, code] =>
     match parseCalls pool hc, parseCalls pool tc, code.toNat? with
     | some h, some t, some c =>
-      if ["u", "b0", "b1"].contains path then (pool, modelM pool path h t c (aeOf impl), monitorM path h t c impl)
+      if ["u", "b0", "b1"].contains path then
+        -- invalid metadata in a HEADER call can reach the wire (grpc.SendHeader does not validate); the client then
+        -- resets the stream, and whether the handler's later calls already see the dead stream (ErrIllegalHeaderWrite)
+        -- is a race the model does not predict: outside the statement's domain, not compared
+        let m := if h.all (fun c => validate c.2) then modelM pool path h t c (aeOf impl) else "*"
+        (pool, m, monitorM path h t c impl)
       else (pool, "bad-op", "-")
     | _, _, _ => (pool, "bad-op", "-")
   | _ =>
